@@ -381,6 +381,42 @@ func (w *World) copyPredicate(c *MCont) (bool, string) {
 	}
 	raw, ok := l.Regs[c.VID]
 	if !ok {
+		// inlined: locate it inside its host register (inlined containers carry their slab index) and look for
+		// references it holds itself - an inlined map can still own an external collision group
+		var found *PElem
+		for _, id := range l.SortedIDs() {
+			if id.Owner != c.VID.Owner || found != nil {
+				continue
+			}
+			hp, herr := ParseRegister(id, l.Regs[id])
+			if herr != nil {
+				continue
+			}
+			hp.EachElem(func(e *PElem) {
+				if found == nil && (e.Kind == "inl.arr" || e.Kind == "inl.map" || e.Kind == "inl.cmap") && e.Index == c.VID.Index {
+					found = e
+				}
+			})
+		}
+		if found == nil {
+			return false, "its inlined form was not found in any register"
+		}
+		holdsRef := false
+		walkElem(found, func(e *PElem) {
+			if e != found && (e.Kind == "ref" || e.Kind == "inl.arr" || e.Kind == "inl.map" || e.Kind == "inl.cmap") {
+				holdsRef = true
+			}
+		})
+		if found.Kind == "inl.map" {
+			walkElements(found.MapElems, func(*PElem) {}, func(ent *PMapEntry) {
+				if ent.Kind == "xgroup" {
+					holdsRef = true
+				}
+			})
+		}
+		if holdsRef {
+			return false, "it is inlined in its parent but holds a reference (external collision group or separately stored element)"
+		}
 		return true, "it is inlined in its parent (a single slab) and holds only plain values"
 	}
 	p, perr := ParseRegister(c.VID, raw)
